@@ -1,5 +1,6 @@
 """C13 Ephemeral HTTP instances expire without heartbeats, never while heart-beating."""
 import re
+from rn.facts import rv_operands
 from rn import cfg, util
 from rn.flow import Taint, field_place_src
 from rn.tables import check_table
@@ -451,7 +452,20 @@ def r13j(ck, fb):
         for s0 in util.mut_calls_on_field(x, 'healthy_timeout_set', r'::add$'):
             n += 1
             ck.analysed(x)
-            ck.require(len(s0.args) >= 2 and now.op_tainted(s0.args[1]), 'R13j', 'take-over:clock-starts-now', s0.where(),
+            fresh = len(s0.args) >= 2 and now.op_tainted(s0.args[1])
+            if fresh:
+                # the taint is flow-insensitive: when the time is read from a field of a local, the assignment that makes that field "now"
+                # has to lie before the read (an arming placed in front of `instance.last_modified_millis = now` reads the mirror's age)
+                d = cfg.strip_calls(x, cfg.describe_operand(x, s0.args[1]))
+                if d['k'] == 'place' and d.get('fields') and d.get('pl') is not None:
+                    from rn.facts import pl_local, pl_fields, op_place
+                    L, F = pl_local(d['pl']), d['fields'][-1]
+                    ws = [bb for (i, j, st) in x.stmts() for bb in [i]
+                          if not isinstance(st.get('d'), int) and st.get('d') is not None and pl_local(st['d']) == L and pl_fields(st['d'])[-1:] == [F]
+                          and st.get('rv') and any(now.op_tainted(y) for y in rv_operands(st['rv']))]
+                    if ws and not any(cfg.dominates_blocks(x, {w}, s0.bb) for w in ws):
+                        fresh = False
+            ck.require(fresh, 'R13j', 'take-over:clock-starts-now', s0.where(),
                        'the clock of a taken-over instance is armed with the age of the mirror copy: 3 nodes, five HTTP instances beating every 5 s owned '
                        'by node 3; 17.5 s after node 3 is killed they are reported unhealthy on nodes 1 and 2', 'armed from the current time')
     ck.floor('R13j', 'take-over arming sites', n, 1)
